@@ -431,6 +431,13 @@ func (r *Run) Execute() Outcome {
 			break
 		}
 	}
+	for _, rw := range rd.Rewrites {
+		if rw.Err != "" {
+			out.Problems = append(out.Problems, fmt.Sprintf("cas-after-reopen|a CAS-checked write of %s with the CAS just read (%d) failed after the reopen: %s", rw.Key, rw.Before, rw.Err))
+		} else if rw.After <= rw.Before {
+			out.Problems = append(out.Problems, fmt.Sprintf("cas-after-reopen|after %s and a reopen (clock rewound to %d) a regular write of %s got CAS %d, not above the CAS %d of the version it replaced (a replicated version with a CAS ahead of the clock, stored as the last write)", out.KillDesc, r.Reader.Clock, rw.Key, rw.After, rw.Before))
+		}
+	}
 	for i := 1; i < len(rd.NewCas); i++ {
 		if rd.NewCas[i] <= rd.NewCas[i-1] {
 			out.Problems = append(out.Problems, "cas-after-reopen|CAS values after reopen are not increasing")
